@@ -756,7 +756,12 @@ func (tm *TaskMaster) forkPoint(p edge.PointMessage) {
 		_ = edge.Collect(p)
 	}
 
-	for _, edge := range tm.forks[emptyMeasurementKey] {
+	for task, edge := range tm.forks[emptyMeasurementKey] {
+		if _, ok := tm.forks[key][task]; ok {
+			// A task with both a from() for this measurement and a from() for all
+			// measurements has the same edge under both keys, it got the point already.
+			continue
+		}
 		_ = edge.Collect(p)
 	}
 
